@@ -111,10 +111,6 @@ func (dt DateTime) TryEqual(input Any) (bool, bool) {
 	if !ok {
 		return false, true
 	}
-	if dt.l == val.l {
-		return dt.dateTime.Equal(val.dateTime), true
-	}
-
 	// normalize time zone
 	dt.dateTime = dt.dateTime.UTC()
 	val.dateTime = val.dateTime.UTC()
@@ -125,10 +121,14 @@ func (dt DateTime) TryEqual(input Any) (bool, bool) {
 	minPrecision := min(int(dateTimeMap[dt.l]), int(dateTimeMap[val.l]))
 
 	for i := 0; i <= minPrecision; i++ {
-		if dtComponents[i] == valComponents[i] && i != int(dtSecond) {
-			continue
+		if dtComponents[i] != valComponents[i] {
+			return false, true
 		}
-		return dtComponents[i] == valComponents[i], true
+	}
+	// all shared components are equal: the values are equal if they have the
+	// same precision, otherwise the comparison has no value.
+	if dateTimeMap[dt.l] == dateTimeMap[val.l] {
+		return true, true
 	}
 	return false, false
 }
@@ -141,10 +141,6 @@ func (dt DateTime) Less(input Any) (Boolean, error) {
 	if !ok {
 		return false, fmt.Errorf("%w, %T, %T", ErrTypeMismatch, dt, input)
 	}
-	if dt.l == val.l {
-		return Boolean(dt.dateTime.Before(val.dateTime)), nil
-	}
-
 	// normalize time zone
 	dt.dateTime = dt.dateTime.UTC()
 	val.dateTime = val.dateTime.UTC()
@@ -156,10 +152,13 @@ func (dt DateTime) Less(input Any) (Boolean, error) {
 
 	for i := 0; i <= minPrecision; i++ {
 		// precisions below second are irrelevant, and should be treated the same.
-		if dtComponents[i] == valComponents[i] && i != int(dtSecond) {
-			continue
+		if dtComponents[i] != valComponents[i] {
+			return dtComponents[i] < valComponents[i], nil
 		}
-		return dtComponents[i] < valComponents[i], nil
+	}
+	// all shared components are equal
+	if dateTimeMap[dt.l] == dateTimeMap[val.l] {
+		return false, nil
 	}
 	return false, ErrMismatchedPrecision
 }
